@@ -46,6 +46,7 @@ static void check_one(int e, int full, int k, int thr, const ctx *x, const char 
 
 static int g_fam;
 static void on_spec(const rk_spec *s, void *u) {
+  if (s->fam == F_RECW && s->c > 9000) return; /* M4RI on a 1 x 500000 matrix builds a table per column block: minutes per case, not a property question (C03 runs the very wide members) */
   (void)u;
   char desc[160]; rk_str(s, desc, sizeof desc);
   vx_group();
@@ -91,6 +92,7 @@ void prop_enumerate(void) {
   else if (!strcmp(mode, "lift")) rk_enumerate(1 << F_LIFT, 0, vx_tier ? 12 : 8, on_spec, NULL);
   else if (!strcmp(mode, "struct")) rk_enumerate((1 << F_ECH) | (1 << F_RK) | (1 << F_BND) | (1 << F_HYB), 0, 0, on_spec, NULL);
   else if (!strcmp(mode, "big")) big();
+  else if (!strcmp(mode, "rec")) rk_enumerate((1 << F_REC) | (1 << F_RECW), 0, 0, on_spec, NULL); /* rank profiles that drive the block-recursive PLE behind the PLUQ-based routes */
   (void)g_fam;
 }
 int main(int argc, char **argv) { return vx_main(argc, argv); }
